@@ -270,6 +270,55 @@ def release_runs(ctx, res, cases):
         w.close()
 
 
+def real_main_runs(ctx, res, cases):
+    """A handful of configurations through the daemon's real `main()` (the probe's scenarios enter below it), with the process
+    confined to one CPU and to two: whatever `main` derives from the machine must not turn a configuration into a crash."""
+    exe = pool.private_probe()
+    w = pool.Worker()
+    try:
+        ca = w.call({"op": "ca_start", "cfg": {}}, 30)
+        base_url = ca["base"]
+        root = os.path.join(pool.scratch(), "c19-main")
+        cpus = sorted(os.sched_getaffinity(0))
+        n = 0
+        for ncpu in (1, 2):
+            if len(cpus) < ncpu:
+                continue
+            for r in cases:
+                n += 1
+                d = os.path.join(root, "case%d" % n)
+                os.makedirs(os.path.join(d, "pki"), exist_ok=True)
+                open(os.path.join(d, "pki", "R.pem"), "w").write("")
+                for name, text in r["files"].items():
+                    t = text.replace("@DIR@", d).replace("@CA0@", base_url + "/dir").replace("@EXE@", "/bin/true")
+                    with open(os.path.join(d, name), "w") as f:
+                        f.write(t)
+                env = pool.base_env()
+                env.pop("ACMED_VERIF_RUN", None)
+                use = set(cpus[:ncpu])
+                p = subprocess.Popen([exe, "-f", "--no-pid-file", "--log-stderr", "-c", os.path.join(d, "main.toml")], stdout=subprocess.DEVNULL, stderr=subprocess.PIPE,
+                                     env=env, cwd=d, preexec_fn=lambda use=use: os.sched_setaffinity(0, use))
+                t0 = time.time()
+                rc = None
+                while time.time() - t0 < 1.0:
+                    rc = p.poll()
+                    if rc is not None:
+                        break
+                    time.sleep(0.02)
+                if rc is None:
+                    p.kill()
+                    p.wait()
+                err = p.stderr.read().decode(errors="replace")[-300:]
+                res.evaluations += 1
+                res.outcomes["main|cpus=%d|%s" % (ncpu, "running" if rc is None else "exit(%d)" % rc)] += 1
+                if rc is not None and (rc < 0 or rc == 101 or "panicked at" in err):
+                    res.violation("no-crash", "C19|no-crash|real-main|cpus=%d" % ncpu, "start normally or exit with an error message, whatever the machine looks like",
+                                  "acmed %s with %d CPU(s) available; stderr tail: %s" % ("killed by signal %d" % -rc if rc < 0 else "exited with %d" % rc, ncpu, err),
+                                  replay={"real_main": True, "cpus": ncpu, "files": r["files"], "meta": r.get("meta")})
+    finally:
+        w.close()
+
+
 def run(ctx):
     res = Result("exploration")
     res.rule = ("(a) a configuration using every section and optional key, mutated field by field: delete, duplicate, unknown key, 15 replacement values (wrong types, empty, "
@@ -323,6 +372,8 @@ def run(ctx):
             seen.add(sig)
             res.violation("period-grammar", sig, "periods accepted exactly per the documented grammar and equal to the sum of their parts: %r -> %s" % (b["input"], b["want"]),
                           "%r -> %s" % (b["input"], b["got"]), replay={"op": "duration_sweep", "maxlen": 0, "extra": [b["input"]]})
+    hz = hazards()
+    real_main_runs(ctx, res, [hz[0], hz[len(hz) // 2], hz[-1]] + mutants()[:1])
     if not ctx.quick:
         release_runs(ctx, res, hazards())
     res.extra["cases"] = {"mutants": len(mutants()), "hazards": len(hazards()), "period_strings": 111111 + len(extra)}
@@ -334,6 +385,11 @@ def run(ctx):
 
 def replay(ctx, rp):
     req = rp["request"]
+    if req.get("real_main"):
+        from ..report import Result as _R
+        tmp = _R("exploration")
+        real_main_runs(ctx, tmp, [{"files": req["files"], "meta": req.get("meta")}])
+        return [{"oracle": v["oracle"], "signature": v["signature"], "expected": v["expected"], "observed": v["observed"]} for v in getattr(tmp, "violations", [])]
     if req.get("op") == "duration_sweep":
         o = ctx.pool.call(req, 60.0)
         return [{"oracle": "period-grammar", "signature": rp["signature"], "expected": rp["expected"], "observed": str(b)} for b in o.get("bad", [])]
